@@ -1091,7 +1091,10 @@ func (ts *TermStore) BVToF(a *Term, to Sort) *Term {
 
 func (ts *TermStore) FToBV(a *Term, w int) *Term {
 	if a.Sort.K == SInt {
-		// ring mode: opaque, only cancels against BVToF
+		// ring mode: opaque, only cancels against BVToF (and against the image of a partially written bit pattern)
+		if a.Op == OUF && strings.HasPrefix(a.Name, "ringbits") && len(a.Args) == 1 && int(a.Args[0].Sort.W) == w {
+			return a.Args[0]
+		}
 		return ts.mk(OFToBV, bvSort(w), 0, "", a)
 	}
 	if a.Sort.Bits() != w {
